@@ -10,7 +10,7 @@ package cmd
 //@ import context "context"
 
 // plumbing packages: calls without a contract are ASSUMED to write nothing the verified code can see
-//@ trustframe "github.com/spf13/viper" "google.golang.org/grpc" "google.golang.org/grpc/keepalive" "google.golang.org/grpc/credentials" "net" "golang.org/x/net/netutil" "runtime" "github.com/grpc-ecosystem/go-grpc-middleware/providers/prometheus" "go.uber.org/zap" "github.com/jamf/regatta/regattaserver" "github.com/jamf/regatta/security" "fmt" "github.com/prometheus/client_golang/prometheus"
+//@ trustframe "github.com/spf13/viper" "google.golang.org/grpc" "google.golang.org/grpc/keepalive" "google.golang.org/grpc/credentials" "net" "golang.org/x/net/netutil" "runtime" "github.com/grpc-ecosystem/go-grpc-middleware/providers/prometheus" "github.com/grpc-ecosystem/go-grpc-middleware/v2/interceptors/logging" "go.uber.org/zap" "github.com/jamf/regatta/regattaserver" "github.com/jamf/regatta/security" "fmt" "github.com/prometheus/client_golang/prometheus"
 
 // the bearer token a call carries in its metadata (absent: hasBearer false)
 //@ uninterp func hasBearer(ctx context.Context) bool
@@ -62,6 +62,14 @@ package cmd
 //@   requires log != nil && reg != nil
 //@   before grpc.ChainStreamInterceptor assert [C17.chain.stream] exists j int :: 0 <= j && j < len(interceptors) && isAuthStream(interceptors[j])
 //@   before grpc.ChainUnaryInterceptor assert [C17.chain.unary] exists j int :: 0 <= j && j < len(interceptors) && isAuthUnary(interceptors[j])
+//@   before security.(TLSInfo).ServerConfig assert [C17.tls.wiring.api] t.TrustedCAFile == cfgStr("api.ca-filename") && t.ClientCertAuth == cfgBool("api.client-cert-auth") && t.AllowedCN == cfgStr("api.allowed-cn") && t.AllowedHostname == cfgStr("api.allowed-hostname")
+//@   modifies nothing
+// createReplicationServer: the TLS options of the replication endpoint are the replication.* settings
+//@ func createReplicationServer
+//@   maypanic
+//@   functype reg regContract
+//@   requires log != nil && reg != nil
+//@   before security.(TLSInfo).ServerConfig assert [C17.tls.wiring.replication] t.TrustedCAFile == cfgStr("replication.ca-filename") && t.ClientCertAuth == cfgBool("replication.client-cert-auth") && t.AllowedCN == cfgStr("replication.allowed-cn") && t.AllowedHostname == cfgStr("replication.allowed-hostname")
 //@   modifies nothing
 //@ func regContract
 //@   assumed
@@ -77,6 +85,12 @@ package cmd
 //@   assumed
 //@   ensures result == cfgStr(key)
 //@   modifies nothing
+//@ uninterp func cfgBool(key string) bool
+//@ func viper.GetBool
+//@   assumed
+//@   ensures result == cfgBool(key)
+//@   modifies nothing
+//@ import security "github.com/jamf/regatta/security"
 // the token a check was built for (ghost, set by authFunc)
 //@ ghostfield any.tok string
 //@ func regattapb.RegisterKVServer
